@@ -75,6 +75,15 @@ def step (vals : List Rat) (op : Op) : Option Rat :=
   | .intR o i z => do intR o (← vals[i]?) z
   | .intL o z i => do intL o z (← vals[i]?)
 
+/-- a program over values: the values of all registers and whether the program ran to its end
+    (`false`: a step divided by zero, execution stops there) -/
+def run : List Op → List Rat → List Rat × Bool
+  | [], vals => (vals, true)
+  | op :: ops, vals =>
+    match step vals op with
+    | some v => run ops (vals ++ [v])
+    | none => (vals, false)
+
 end Spec
 
 end Dashu.Model.Ratio
